@@ -137,6 +137,12 @@ func Child(args []string) {
 			rng.Read(payload)
 			m := message.New(ssidOf(i), []byte(ch), payload)
 			m.TTL = uint32(100000 + rng.Intn(1000))
+			if i%4 == 3 {
+				// a message that is 45 days old (replicated late, or stored by an earlier life of the broker) with a
+				// TTL of 120 days: live for another 75 days, whatever the retention period of retained messages is
+				m.ID.SetTime(time.Now().Unix() - 45*86400)
+				m.TTL = 120 * 86400
+			}
 			fmt.Fprintf(out, "begin %d %s %s %s %d\n", i, hex.EncodeToString(m.ID), ch, hashOf(payload), m.TTL)
 			out.Flush()
 			if err := s.Store(m); err != nil {
